@@ -980,3 +980,421 @@ async fn export_replay() {
     }
     out.flush().unwrap();
 }
+
+// =====================================================================================================
+// C09: the propagation / attribute-rewrite matrix (spec/Propagation/Propagation.tla) on the real
+// `process_nlri_change` with a recording sink.
+// Input lines: case <src> <dst> <confed 0|1> <asp> <has,comma|-> <llgr 0|1> <same 0|1>
+// =====================================================================================================
+
+struct RecSink {
+    reach: Vec<(Option<bgp::Nexthop>, Arc<Vec<packet::Attribute>>)>,
+    unreach: usize,
+}
+
+impl crate::event::export::NlriSink for RecSink {
+    fn reach(
+        &mut self,
+        _dest_id: u32,
+        _nlri: packet::Nlri,
+        _path_id: u32,
+        nexthop: Option<bgp::Nexthop>,
+        attr: Arc<Vec<packet::Attribute>>,
+        _source: &Arc<table::Source>,
+    ) {
+        self.reach.push((nexthop, attr));
+    }
+    fn unreach(&mut self, _dest_id: u32, _nlri: packet::Nlri, _path_id: u32) {
+        self.unreach += 1;
+    }
+}
+
+const P_LOCAL_AS: u32 = 65001;
+const P_CONFED_ID: u32 = 64512;
+const P_CLUSTER: Ipv4Addr = Ipv4Addr::new(7, 7, 7, 7);
+const P_SRC_RID: Ipv4Addr = Ipv4Addr::new(5, 5, 5, 5);
+
+fn prop_aspath(shape: &str) -> Vec<u8> {
+    let seg = |t: u8, asns: &[u32]| -> Vec<u8> {
+        let mut v = vec![t, asns.len() as u8];
+        for a in asns {
+            v.extend_from_slice(&a.to_be_bytes());
+        }
+        v
+    };
+    match shape {
+        "empty" => vec![],
+        "seq2" => seg(2, &[100, 101]),
+        "seq255" => seg(2, &(0..255).map(|i| 1000 + i).collect::<Vec<u32>>()),
+        "set2" => seg(1, &[100, 101]),
+        "cseq2_seq2" => {
+            let mut v = seg(3, &[65003, 65004]);
+            v.extend(seg(2, &[100, 101]));
+            v
+        }
+        "cseq2" => seg(3, &[65003, 65004]),
+        x => panic!("harness: asp {x}"),
+    }
+}
+
+fn prop_describe(nexthop: Option<bgp::Nexthop>, attr: &[packet::Attribute], local_addr: IpAddr, orig_nh: Ipv4Addr) -> String {
+    let mut asp = Vec::new();
+    let mut first = 0u32;
+    let mut present: Vec<&str> = Vec::new();
+    let mut ut_partial = false;
+    let mut llgr = false;
+    let mut oid = "none".to_string();
+    let mut cl = "none".to_string();
+    for a in attr {
+        match a.code() {
+            packet::Attribute::AS_PATH => {
+                let b = a.binary().unwrap();
+                let mut i = 0;
+                let mut firstseg = true;
+                while i + 1 < b.len() {
+                    let t = b[i];
+                    let n = b[i + 1] as usize;
+                    if firstseg && n > 0 {
+                        first = u32::from_be_bytes([b[i + 2], b[i + 3], b[i + 4], b[i + 5]]);
+                    }
+                    firstseg = false;
+                    let tn = match t {
+                        1 => "SET",
+                        2 => "SEQ",
+                        3 => "CSEQ",
+                        4 => "CSET",
+                        _ => "?",
+                    };
+                    asp.push(format!("[\"{}\",{}]", tn, n));
+                    i += 2 + 4 * n;
+                }
+            }
+            packet::Attribute::LOCAL_PREF => present.push("LP"),
+            packet::Attribute::MULTI_EXIT_DESC => present.push("MED"),
+            packet::Attribute::ORIGINATOR_ID => {
+                present.push("OID");
+                let v = a.value().unwrap_or(0);
+                oid = if v == u32::from(Ipv4Addr::new(9, 9, 9, 9)) {
+                    "orig".into()
+                } else if v == u32::from(P_SRC_RID) {
+                    "src_rid".into()
+                } else {
+                    format!("other:{}", v)
+                };
+            }
+            packet::Attribute::CLUSTER_LIST => {
+                present.push("CL");
+                let b = a.binary().cloned().unwrap_or_default();
+                let cid = u32::from(P_CLUSTER).to_be_bytes();
+                let orig = [8u8, 8, 8, 8];
+                cl = if b.len() >= 4 && b[0..4] == cid && (b.len() == 4 || b[4..] == orig) {
+                    "prepended".into()
+                } else if b == orig {
+                    "orig".into()
+                } else {
+                    "other".into()
+                };
+            }
+            packet::Attribute::AIGP => present.push("AIGP"),
+            packet::Attribute::COMMUNITY => {
+                if let Some(b) = a.binary() {
+                    if b.chunks(4).any(|c| c == [0xff, 0xff, 0x00, 0x06]) {
+                        llgr = true;
+                    }
+                }
+            }
+            200 => {
+                present.push("UT");
+                ut_partial = a.flags() & packet::Attribute::FLAG_PARTIAL != 0;
+            }
+            201 => present.push("UN"),
+            _ => {}
+        }
+    }
+    let nh = match nexthop {
+        Some(n) if n.addr() == local_addr => "self",
+        Some(n) if n.addr() == IpAddr::V4(orig_nh) => "orig",
+        Some(_) => "other",
+        None => "none",
+    };
+    format!(
+        "{{\"sent\":true,\"asp\":[{}],\"first\":{},\"present\":[{}],\"utPartial\":{},\"llgrStale\":{},\"oid\":\"{}\",\"cl\":\"{}\",\"nexthop\":\"{}\"}}",
+        asp.join(","),
+        first,
+        present.iter().map(|x| format!("\"{}\"", x)).collect::<Vec<_>>().join(","),
+        ut_partial,
+        llgr,
+        oid,
+        cl,
+        nh
+    )
+}
+
+#[test]
+fn prop_replay() {
+    let Ok(inp) = std::env::var("VERIF_IN") else {
+        return;
+    };
+    if !inp.ends_with(".prop.in") {
+        return;
+    }
+    let outp = std::env::var("VERIF_OUT").expect("VERIF_OUT");
+    let text = std::fs::read_to_string(&inp).expect("read VERIF_IN");
+    let mut out = std::io::BufWriter::new(std::fs::File::create(&outp).expect("create VERIF_OUT"));
+    let dst_addr = IpAddr::V4(Ipv4Addr::new(10, 0, 0, 9));
+    let local_addr = IpAddr::V4(Ipv4Addr::new(10, 0, 0, 254));
+    let orig_nh = Ipv4Addr::new(192, 0, 2, 77);
+    for (idx, line) in text.lines().enumerate() {
+        let tok: Vec<&str> = line.split_whitespace().collect();
+        if tok.is_empty() || tok[0] != "case" {
+            continue;
+        }
+        let (src, dst, confed, asp, has, llgr, same) =
+            (tok[1], tok[2], tok[3] == "1", tok[4], tok[5], tok[6] == "1", tok[7] == "1");
+        let res = std::panic::catch_unwind(|| {
+            let src_addr = if same { dst_addr } else { IpAddr::V4(Ipv4Addr::new(10, 0, 0, 3)) };
+            let source: Arc<table::Source> = match src {
+                "local" => table::Source::local(),
+                k => {
+                    let (rasn, role) = match k {
+                        "ebgp" => (65010, PeerRole::Ebgp),
+                        "ibgp" => (P_LOCAL_AS, PeerRole::Ibgp),
+                        "ibgpc" => (P_LOCAL_AS, PeerRole::IbgpRrClient),
+                        "rs" => (65020, PeerRole::RsClient),
+                        "confed" => (65002, PeerRole::ConfedEbgp),
+                        x => panic!("harness: src {x}"),
+                    };
+                    Arc::new(table::Source::new(src_addr, local_addr, rasn, P_LOCAL_AS, P_SRC_RID, role))
+                }
+            };
+            if llgr {
+                source.mark_llgr_stale();
+            }
+            let role = match dst {
+                "Ebgp" => PeerRole::Ebgp,
+                "Ibgp" => PeerRole::Ibgp,
+                "IbgpRrClient" => PeerRole::IbgpRrClient,
+                "RsClient" => PeerRole::RsClient,
+                "ConfedEbgp" => PeerRole::ConfedEbgp,
+                x => panic!("harness: dst {x}"),
+            };
+            let ctx = crate::event::export::PeerExportContext {
+                role,
+                local_asn: P_LOCAL_AS,
+                local_addr,
+                link_addr: None,
+                confederation_id: if confed { P_CONFED_ID } else { 0 },
+            };
+            let cluster_id = matches!(role, PeerRole::Ibgp | PeerRole::IbgpRrClient).then_some(P_CLUSTER);
+            let mut attrs = vec![
+                packet::Attribute::new_with_value(packet::Attribute::ORIGIN, 0).unwrap(),
+                packet::Attribute::new_with_bin(packet::Attribute::AS_PATH, prop_aspath(asp)).unwrap(),
+            ];
+            let hs: Vec<&str> = if has == "-" { vec![] } else { has.split(',').collect() };
+            for h in &hs {
+                attrs.push(match *h {
+                    "LP" => packet::Attribute::new_with_value(packet::Attribute::LOCAL_PREF, 200).unwrap(),
+                    "MED" => packet::Attribute::new_with_value(packet::Attribute::MULTI_EXIT_DESC, 50).unwrap(),
+                    "OID" => packet::Attribute::new_with_value(
+                        packet::Attribute::ORIGINATOR_ID,
+                        u32::from(Ipv4Addr::new(9, 9, 9, 9)),
+                    )
+                    .unwrap(),
+                    "CL" => packet::Attribute::new_with_bin(packet::Attribute::CLUSTER_LIST, vec![8, 8, 8, 8]).unwrap(),
+                    "AIGP" => packet::Attribute::new_with_bin(
+                        packet::Attribute::AIGP,
+                        vec![1, 0, 11, 0, 0, 0, 0, 0, 0, 0, 100],
+                    )
+                    .unwrap(),
+                    "UT" => packet::Attribute::new_opaque(200, 0xC0, vec![1, 2, 3]),
+                    "UN" => packet::Attribute::new_opaque(201, 0x80, vec![4, 5]),
+                    x => panic!("harness: attr {x}"),
+                });
+            }
+            attrs.sort_by_key(|a| a.code());
+            let path = table::Path {
+                local_path_id: 1,
+                source: source.clone(),
+                nexthop: Some(bgp::Nexthop::V4(orig_nh)),
+                attr: Arc::new(attrs),
+            };
+            let change = table::NlriChange {
+                family: Family::IPV4,
+                net: "10.9.0.0/16".parse().unwrap(),
+                dest_id: 1,
+                best_changed: true,
+                any_changed: true,
+                replaced_path_id: None,
+                current_paths: Arc::new(vec![path]),
+            };
+            let mut outs = Vec::new();
+            for emax in [1usize, 2usize] {
+                let mut em = crate::event::export::ExportMap::new(if emax > 1 { vec![Family::IPV4] } else { vec![] });
+                let mut sink = RecSink { reach: Vec::new(), unreach: 0 };
+                crate::event::export::process_nlri_change(
+                    &change, emax, dst_addr, &mut em, &mut sink, &ctx, None, cluster_id, None, None, None,
+                );
+                outs.push(match sink.reach.first() {
+                    None => "{\"sent\":false}".to_string(),
+                    Some((nh, a)) => prop_describe(*nh, a, local_addr, orig_nh),
+                });
+            }
+            if llgr {
+                source.clear_llgr_stale();
+            }
+            outs
+        });
+        match res {
+            Ok(o) => writeln!(out, "{{\"i\":{},\"plain\":{},\"addpath\":{}}}", idx, o[0], o[1]).unwrap(),
+            Err(_) => writeln!(out, "{{\"i\":{},\"panic\":true}}", idx).unwrap(),
+        }
+    }
+    out.flush().unwrap();
+}
+
+// C09 inbound: routes that already passed through this speaker are never installed.  Runs a real session
+// (accept_connection + PeerSession::run) per case and sends one UPDATE with the looping attribute, then a
+// marker route; observes the real RIB.
+// Input lines: in <peer ebgp|ibgp|confed> <confed 0|1> <loop kind>
+#[tokio::test]
+async fn inbound_replay() {
+    let Ok(inp) = std::env::var("VERIF_IN") else {
+        return;
+    };
+    if !inp.ends_with(".inb.in") {
+        return;
+    }
+    let outp = std::env::var("VERIF_OUT").expect("VERIF_OUT");
+    let text = std::fs::read_to_string(&inp).expect("read VERIF_IN");
+    let mut out = std::io::BufWriter::new(std::fs::File::create(&outp).expect("create VERIF_OUT"));
+    for (idx, line) in text.lines().enumerate() {
+        let tok: Vec<&str> = line.split_whitespace().collect();
+        if tok.is_empty() || tok[0] != "in" {
+            continue;
+        }
+        let (peer, confed, lp) = (tok[1], tok[2] == "1", tok[3]);
+        let global = mk_global();
+        let tables: TableHandle = Arc::new(TableManager::new(1));
+        let addr = IpAddr::V4(Ipv4Addr::new(127, 0, 0, 1));
+        let local_rid = Ipv4Addr::new(1, 0, 0, 1);
+        let confed_id = 64512u32;
+        if confed {
+            global.write().await.confederation = Some(ConfederationConfig { id: confed_id, members: [65001u32, 65002u32].into_iter().collect() });
+        }
+        let remote_asn = match peer {
+            "ebgp" => 65010,
+            "ibgp" => 65001,
+            _ => 65002,
+        };
+        let mut p = base_params(addr);
+        p.expected_remote_asn = remote_asn;
+        p.local_asn = 65001;
+        global.write().await.add_peer(p, None).unwrap();
+        let (client, server) = pair_from(Ipv4Addr::new(127, 0, 0, 1)).await;
+        let sess = accept_connection(&global, &tables, server, crate::fsm::Role::Passive).await.expect("accept");
+        let (atx, _arx) = mpsc::unbounded_channel();
+        let g2 = global.clone();
+        let task = tokio::spawn(async move { sess.run(g2, atx).await });
+        let mut r = Remote::new(client, remote_asn);
+        let mut note = String::new();
+        if !r.read_open().await {
+            note.push_str("no OPEN;");
+        }
+        let caps = vec![
+            packet::Capability::MultiProtocol(Family::IPV4),
+            packet::Capability::FourOctetAsNumber(remote_asn),
+        ];
+        if !r.open_exchange(u32::from(Ipv4Addr::new(10, 0, 0, 2)), 90, caps).await {
+            note.push_str("OPEN exchange failed;");
+        }
+        // the route under test
+        let mut path: Vec<u32> = if peer == "ibgp" { vec![65100] } else { vec![remote_asn, 65100] };
+        match lp {
+            "aspath_local_as" => path.push(65001),
+            "aspath_confed_id" => path.push(confed_id),
+            _ => {}
+        }
+        let mut asp = vec![2u8, path.len() as u8];
+        for a in &path {
+            asp.extend_from_slice(&a.to_be_bytes());
+        }
+        let mut attrs = vec![
+            packet::Attribute::new_with_value(packet::Attribute::ORIGIN, 0).unwrap(),
+            packet::Attribute::new_with_bin(packet::Attribute::AS_PATH, asp.clone()).unwrap(),
+        ];
+        if peer != "ebgp" {
+            attrs.push(packet::Attribute::new_with_value(packet::Attribute::LOCAL_PREF, 100).unwrap());
+        }
+        match lp {
+            "originator_local" => attrs.push(packet::Attribute::new_with_value(packet::Attribute::ORIGINATOR_ID, u32::from(local_rid)).unwrap()),
+            "originator_other" => attrs.push(packet::Attribute::new_with_value(packet::Attribute::ORIGINATOR_ID, u32::from(Ipv4Addr::new(9, 9, 9, 9))).unwrap()),
+            "cluster_local" => attrs.push(packet::Attribute::new_with_bin(packet::Attribute::CLUSTER_LIST, {
+                let mut b = vec![8u8, 8, 8, 8];
+                b.extend_from_slice(&local_rid.octets());
+                b
+            }).unwrap()),
+            "cluster_other" => attrs.push(packet::Attribute::new_with_bin(packet::Attribute::CLUSTER_LIST, vec![8, 8, 8, 8]).unwrap()),
+            _ => {}
+        }
+        let nh = Some(bgp::Nexthop::V4(Ipv4Addr::new(127, 0, 0, 1)));
+        let test_net: packet::Nlri = "10.50.0.0/16".parse().unwrap();
+        let marker_net: packet::Nlri = "10.60.0.0/16".parse().unwrap();
+        r.send(&bgp::Message::Update(bgp::Update::Reach {
+            family: Family::IPV4,
+            entries: vec![packet::PathNlri { path_id: 0, nlri: test_net.clone() }],
+            nexthop: nh,
+            attr: Arc::new(attrs),
+        }))
+        .await;
+        // marker: a clean route; once it is in the RIB the test route has been processed
+        let mpath: Vec<u32> = if peer == "ibgp" { vec![65100] } else { vec![remote_asn, 65100] };
+        let mut masp = vec![2u8, mpath.len() as u8];
+        for a in &mpath {
+            masp.extend_from_slice(&a.to_be_bytes());
+        }
+        let mut mattrs = vec![
+            packet::Attribute::new_with_value(packet::Attribute::ORIGIN, 0).unwrap(),
+            packet::Attribute::new_with_bin(packet::Attribute::AS_PATH, masp).unwrap(),
+        ];
+        if peer != "ebgp" {
+            mattrs.push(packet::Attribute::new_with_value(packet::Attribute::LOCAL_PREF, 100).unwrap());
+        }
+        r.send(&bgp::Message::Update(bgp::Update::Reach {
+            family: Family::IPV4,
+            entries: vec![packet::PathNlri { path_id: 0, nlri: marker_net.clone() }],
+            nexthop: nh,
+            attr: Arc::new(mattrs),
+        }))
+        .await;
+        let t2 = tables.clone();
+        let has = move |n: &packet::Nlri| {
+            t2.collect_paths(table::TableQuery::AdjIn(addr), Family::IPV4, vec![], true).iter().any(|d| &d.net == n)
+        };
+        let h2 = has.clone();
+        let mn = marker_net.clone();
+        if !wait_until(move || h2(&mn), WAIT_MS).await {
+            note.push_str("marker route not installed;");
+        }
+        let installed = has(&test_net);
+        // which iBGP-only attributes the installed route carries
+        let mut kept = Vec::new();
+        for d in tables.collect_paths(table::TableQuery::Global, Family::IPV4, vec![], true) {
+            if d.net == test_net {
+                for p in &d.paths {
+                    for a in p.attr.iter() {
+                        if a.code() == packet::Attribute::ORIGINATOR_ID {
+                            kept.push("\"OID\"");
+                        }
+                        if a.code() == packet::Attribute::CLUSTER_LIST {
+                            kept.push("\"CL\"");
+                        }
+                    }
+                }
+            }
+        }
+        r.close();
+        let _ = tokio::time::timeout(Duration::from_millis(WAIT_MS), task).await;
+        writeln!(out, "{{\"i\":{},\"installed\":{},\"kept\":[{}],\"note\":\"{}\"}}", idx, installed, kept.join(","), note).unwrap();
+    }
+    out.flush().unwrap();
+}
